@@ -514,6 +514,113 @@ func TestC38(t *testing.T) {
 		}
 	})
 
+	// ---- case-insensitive equality / order over all 256 byte values: pairs that
+	// are identical after ASCII folding except where a position is changed by
+	// one bit (mostly the case bit 0x20, also on non-letters) or replaced
+	rt.Check(t, rec, "cibits", 3000, 30000, func(t *rapid.T) {
+		r := newRng(t, "pair")
+		n := r.n(11)
+		x := make([]byte, n)
+		for i := range x {
+			switch r.n(4) {
+			case 0, 1:
+				x[i] = byte(r.n(256))
+			case 2:
+				x[i] = "aAzZmM"[r.n(6)]
+			default:
+				const edge = "@[\\]^_`{|}~\x7f \x00-\r09\xc0\xe0\xdf\xff"
+				x[i] = edge[r.n(len(edge))]
+			}
+		}
+		y := append([]byte(nil), x...)
+		caseOnly, bit20NonLetter, otherBit, replaced := 0, 0, 0, 0
+		isLetter := func(c byte) bool { return flipCase(c) != c }
+		// at least one changed position in 5 of 6 cases
+		force := -1
+		if n > 0 && r.n(6) != 0 {
+			force = r.n(n)
+		}
+		for i := range y {
+			w := r.n(20)
+			if i == force && w < 11 {
+				w = 11 + r.n(9)
+			}
+			switch {
+			case w < 11: // unchanged
+			case w < 14:
+				if isLetter(y[i]) {
+					y[i] = flipCase(y[i])
+					caseOnly++
+				}
+			case w < 18: // the case bit, whatever the byte is
+				y[i] ^= 0x20
+				if isLetter(x[i]) {
+					caseOnly++
+				} else {
+					bit20NonLetter++
+				}
+			case w < 19:
+				y[i] ^= 1 << uint(r.n(8))
+				otherBit++
+			default:
+				y[i] = byte(r.n(256))
+				replaced++
+			}
+		}
+		lenMode := uni(t, 10, "len")
+		switch {
+		case lenMode == 0 && len(y) > 0:
+			y = y[:len(y)-1]
+		case lenMode == 1:
+			y = append(y, byte(r.n(256)))
+		}
+		s1, s2 := string(x), string(y)
+		l1, l2 := mapB(s1, lowerB), mapB(s2, lowerB)
+		wantEq := l1 == l2
+		for _, p := range [][2]string{{s1, s2}, {s2, s1}} {
+			if got := str.EqualCI(p[0], p[1]); got != wantEq {
+				t.Fatalf("EqualCI(%q, %q) = %v, want %v (folded: %q vs %q)", p[0], p[1], got, wantEq, mapB(p[0], lowerB), mapB(p[1], lowerB))
+			}
+		}
+		if !str.EqualCI(s1, s1) || !str.EqualCI(s1, mapB(s1, upperB)) || !str.EqualCI(mapB(s2, lowerB), s2) {
+			t.Fatalf("EqualCI is false for a string and its own upper/lower form: %q / %q", s1, s2)
+		}
+		wantCmp := bytes.Compare([]byte(l1), []byte(l2))
+		if got := str.CmpLower(s1, s2); got != wantCmp {
+			t.Fatalf("CmpLower(%q, %q) = %d, want %d", s1, s2, got, wantCmp)
+		}
+		if got := str.CmpLower(s2, s1); got != -wantCmp {
+			t.Fatalf("CmpLower(%q, %q) = %d, want %d", s2, s1, got, -wantCmp)
+		}
+		for _, v := range []string{s1, s2} {
+			if got, want := str.ToLower(v), mapB(v, lowerB); got != want {
+				t.Fatalf("ToLower(%q) = %q, want %q", v, got, want)
+			}
+			if got, want := str.ToUpper(v), mapB(v, upperB); got != want {
+				t.Fatalf("ToUpper(%q) = %q, want %q", v, got, want)
+			}
+		}
+		only20 := len(x) == len(y) && bit20NonLetter > 0 && otherBit == 0 && replaced == 0
+		rec.Case(s1 != s2, "cibits|"+s1+"|"+s2)
+		rec.LabelIf(only20, "ci_pair_differs_only_in_bit_0x20_on_non_letters")
+		rec.LabelIf(only20 && caseOnly > 0, "ci_pair_bit_0x20_non_letter_in_mixed_case_context")
+		rec.LabelIf(wantEq && s1 != s2, "ci_pair_equal_after_folding")
+		rec.LabelIf(!wantEq && len(x) == len(y), "ci_pair_same_length_not_equal")
+		rec.LabelIf(len(x) != len(y), "ci_pair_different_length")
+		rec.LabelIf(otherBit > 0, "ci_pair_other_single_bit")
+		rec.LabelIf(n == 0, "ci_pair_empty")
+		for i := range x {
+			if i < len(y) && x[i] != y[i] && x[i]^y[i] == 0x20 && !isLetter(x[i]) {
+				rec.LabelIf(x[i] >= 0x80, "ci_bit_0x20_on_high_byte")
+				rec.LabelIf(x[i] < 0x40, "ci_bit_0x20_on_digit_space_or_control")
+				rec.LabelIf(x[i] >= 0x40 && x[i] < 0x80, "ci_bit_0x20_on_punctuation_next_to_letters")
+			}
+		}
+		if only20 && rec.WantSample("ci_bit_0x20") {
+			rec.Sample("ci_bit_0x20", []string{fmt.Sprintf("%q", s1), fmt.Sprintf("%q", s2)})
+		}
+	})
+
 	// ---- Before/After, Split/Join, Subi/Subn, Cut, Opt
 	rt.Check(t, rec, "split", 2500, 25000, func(t *rapid.T) {
 		seps := []string{",", ", ", "ab", "aa", "", "-", "\n", "(", "a"}
